@@ -517,22 +517,25 @@ func genStream(r *rng.R) (*caseIn, string, bool) {
 }
 
 // genStreamLarge: 3-4 concurrent writers, compression off; writer 0 writes one message of
-// 16385..20000 bytes between two small ones while the others write 12-20 small messages each.
+// 16385..16500 bytes between two small ones while the others write 25-35 small messages each.
 func genStreamLarge(r *rng.R) (*caseIn, string, bool) {
 	ci := &caseIn{Kind: "stream"}
 	k := 3 + r.Intn(2)
-	big := r.Bytes([]int{16385, 16400, 20000}[r.Intn(3)])
+	big := r.Bytes([]int{16385, 16390, 16500}[r.Intn(3)])
+	for i := range big { // one-digit byte values: the Coq term of the case is half as long
+		big[i] %= 10
+	}
 	big[0] = 0
 	ci.Writers = append(ci.Writers, [][]byte{genMsg(r, 0, 20), big, genMsg(r, 0, 20)})
 	for w := 1; w < k; w++ {
 		var ms [][]byte
-		n := 12 + r.Intn(9)
+		n := 25 + r.Intn(11)
 		for i := 0; i < n; i++ {
-			ms = append(ms, genMsg(r, w, 12))
+			ms = append(ms, genMsg(r, w, 8))
 		}
 		ci.Writers = append(ci.Writers, ms)
 	}
-	ci.Conn = fakequic.Options{Yield: true, ReadChunk: []int{0, 64}[r.Intn(2)], Seed: r.U64()}
+	ci.Conn = fakequic.Options{Yield: true, YieldAll: true, ReadChunk: []int{0, 64}[r.Intn(2)], Seed: r.U64()}
 	return ci, "stream-concurrent-large", true
 }
 
@@ -714,11 +717,11 @@ func main() {
 		pre = nil
 	}
 	// concurrent writers with ONE frame above 16 KiB between many small ones (compression off, the
-	// fake stream yields inside every Write): a writer that puts prefix and payload on the stream
+	// fake stream sleeps before every Write takes the wire): a writer that puts prefix and payload on the stream
 	// in two Write calls without excluding the other writers shows at once.  Large terms: few
 	// cases, own generator stream (the cases above are those of earlier versions).
 	if *only != "dgram" {
-		nL := 2
+		nL := 1
 		if *tier == "thorough" {
 			nL = 12
 		}
@@ -728,7 +731,7 @@ func main() {
 			add(ci, kind, nt)
 		}
 	}
-	rule := "caller discipline in every case: buffers passed to Write/WriteUnreliable are overwritten when the call has returned, returned messages are compared at once and then overwritten over their capacity (even conn seed) or retained and compared again at the end (odd conn seed); stream: 1-4 writer goroutines x 1-7 messages (sizes 0, 1-4, 255-257, random <=300, rarely <=5000 - quick tier: random <=90, 255-257 in 1/24 of the messages, rarely <=1500; payloads that look like length prefixes), fake send stream that yields between Write calls, receive stream handing out 1/3/5/64-byte or unlimited chunks, compression negotiated in ~1/5 of the cases; dgram: 2-7 messages over Transport.WriteUnreliable and 0-3 AsUnreliable() handles, payload size 1-8 (and the default 1188), sizes at multiples of P +-1, sequential or one goroutine per handle, delivery in a random permutation with loss 1/4; timed (real-time arrival, payload size 4, one concurrent batch): 1-2 messages of 1-4 segments, the segments of one message spread over 1.2-2.5 s across cleaner ticks with Config.ReadBufferExpiry left unset (8 cases) or set to 2 s / 3 s with every gap >= 0.6 s below it (8), expiry 1 s with a gap of >= 2.8 s inside the message (5), expiry 1 s with a gap in the grey zone 1.1-2.4 s (3; predicate only), thorough also the unset expiry against gaps of 8.5 s and 12.5 s. non-trivial = concurrent stream writers or >=3 messages; datagram: a multi-segment message and more than one handle; distinct = distinct Coq case terms; stream-concurrent-large (2 quick / 12 thorough, own generator stream): 3-4 concurrent writers, compression off, the fake stream yields inside every Write, writer 0 writes one message of 16385/16400/20000 bytes between small ones while the others write 12-20 messages of <=12 bytes"
+	rule := "caller discipline in every case: buffers passed to Write/WriteUnreliable are overwritten when the call has returned, returned messages are compared at once and then overwritten over their capacity (even conn seed) or retained and compared again at the end (odd conn seed); stream: 1-4 writer goroutines x 1-7 messages (sizes 0, 1-4, 255-257, random <=300, rarely <=5000 - quick tier: random <=90, 255-257 in 1/24 of the messages, rarely <=1500; payloads that look like length prefixes), fake send stream that yields between Write calls, receive stream handing out 1/3/5/64-byte or unlimited chunks, compression negotiated in ~1/5 of the cases; dgram: 2-7 messages over Transport.WriteUnreliable and 0-3 AsUnreliable() handles, payload size 1-8 (and the default 1188), sizes at multiples of P +-1, sequential or one goroutine per handle, delivery in a random permutation with loss 1/4; timed (real-time arrival, payload size 4, one concurrent batch): 1-2 messages of 1-4 segments, the segments of one message spread over 1.2-2.5 s across cleaner ticks with Config.ReadBufferExpiry left unset (8 cases) or set to 2 s / 3 s with every gap >= 0.6 s below it (8), expiry 1 s with a gap of >= 2.8 s inside the message (5), expiry 1 s with a gap in the grey zone 1.1-2.4 s (3; predicate only), thorough also the unset expiry against gaps of 8.5 s and 12.5 s. non-trivial = concurrent stream writers or >=3 messages; datagram: a multi-segment message and more than one handle; distinct = distinct Coq case terms; stream-concurrent-large (1 quick / 12 thorough, own generator stream): 3-4 concurrent writers, compression off, the fake stream sleeps 50 us before every Write takes the wire, writer 0 writes one message of 16385/16390/16500 bytes between small ones while the others write 25-35 messages of <=8 bytes"
 	if *only != "" {
 		rule = "(-only " + *only + ") " + rule
 	}
